@@ -40,9 +40,12 @@ for S in ('float', 'double'):
     W.append(('toHomogeneous(Spherical<%s>)' % S, 'template romea::core::HomogeneousCoordinates3<%s> romea::core::toHomogeneous<%s>(const romea::core::SphericalCoordinates<%s>&);' % (S, S, S)))
 
 
-def run(fx, R, tier):
+def pre(root, R):
     R.floor('W1', 30)
-    ewit.run(fx.root, R, 'W1', WITNESSES)
+    ewit.run(root, R, 'W1', WITNESSES)
+
+
+def run(fx, R, tier):
     try:
         from . import C10_alg
     except ImportError:
